@@ -252,6 +252,7 @@ def parseBase : Nat → List Tok → PResult
   | f + 1, .lp :: ts =>
     match parseTop f ts with
     | some (e, .rp :: r) => some (e, r)
+    | some (e, .comma :: .rp :: r) => some (e, r)     -- `(e,)` is just `e` (build_tuple, 1686-1688)
     | some (e, .comma :: r) =>
       match parseArgs f r with
       | some (es, r') => some (.tuple e es, r')
